@@ -1,6 +1,154 @@
+/-
+  C01 — parsing is lossless: printing the parse tree with heads and tails gives back the input
+  (numerals in their source spelling), under the hypothesis of known finding KF1 (no separator
+  directly before a ':').
+  Property theorems only; the lemmas are in Luqum/Lemmas (Flat, ActLossless, RunLossless,
+  LexLossless).
+-/
 import Luqum.Model.ParserInst
+import Luqum.Lemmas.RunLossless
+import Luqum.Lemmas.LexLossless
+
 namespace Luqum.Props.C01
 open Luqum
-/-- placeholder until the property theorems land: the empty input is a syntax error at the end -/
+
+/-- KF1 hypothesis: no separator immediately before a ':' token
+    (every token directly followed by a COLUMN token has an empty tail) -/
+def noBlankBeforeColon : List Tok → Bool
+  | t1 :: t2 :: r => (t2.kind != .column || t1.tail.isEmpty) && noBlankBeforeColon (t2 :: r)
+  | _ => true
+
+/-! ### kernel-checked facts about the generated tables -/
+
+/-- the accept action occurs only in the `$end` column -/
+theorem accept_only_at_end : acceptOnlyAtEnd tables = true := by decide +kernel
+/-- no shift enters the accepting state -/
+theorem shift_targets_ok : shiftTargetsOK tables = true := by decide +kernel
+/-- gotos lead to positive states, and into the accepting state only from state 0 -/
+theorem goto_targets_ok : gotoTargetsOK tables = true := by decide +kernel
+
+/-- hence: when the run accepts, the input is exhausted and the stack holds exactly one value -/
+theorem tables_ok : TablesOK tables :=
+  tablesOK_of_checks accept_only_at_end shift_targets_ok goto_targets_ok
+
+/-! ### losslessness -/
+
+private theorem adj_of_noBlank : ∀ toks : List Tok, noBlankBeforeColon toks = true →
+    Adj (toks.map Tok.toVal)
+  | [], _ => trivial
+  | [_], _ => trivial
+  | t1 :: t2 :: r, h => by
+    simp only [noBlankBeforeColon, Bool.and_eq_true, Bool.or_eq_true, bne_iff_ne, ne_eq,
+      List.isEmpty_iff] at h
+    refine ⟨fun hc => ?_, adj_of_noBlank (t2 :: r) h.2⟩
+    rw [toVal_isColon] at hc
+    rw [toVal_lay_tail]
+    rcases h.1 with h1 | h1
+    · exact absurd (by simpa using hc) h1
+    · exact h1
+
+/-- **C01 (partial: up to KF1)**: if `parse s` succeeds and no separator stands directly before a
+`:`, then printing the tree with heads and tails (numerals as spelled in the source) gives `s` -/
+theorem parse_lossless_partial (s : Str) (t : Tree)
+    (h : parse s = .ok t) (hk : noBlankBeforeColon (lex s).1 = true) :
+    t.full .raw = s := by
+  unfold parse parseWith at h
+  rcases hlex : lex s with ⟨toks, lerr⟩
+  rw [hlex] at h hk
+  simp only at h hk
+  split at h
+  · rename_i t' hrun
+    cases h
+    -- a lexer error would have been raised: the run accepts only at the end of the input
+    have hnolex : lerr = none := runLoop_no_lexErr tables_ok.acceptEnd _ _ toks lerr _ hrun
+    subst hnolex
+    -- the tokens slice the input, and form a well-formed sequence of stack values
+    obtain ⟨hwf, hflat⟩ := lex_spec hlex
+    have hok : SeqOK (toks.map Tok.toVal) :=
+      ⟨allGood_toVal hwf, allNF_toVal hwf, adj_of_noBlank toks hk⟩
+    -- every shift and reduce keeps the text; at accept the stack is the single result
+    obtain ⟨_, hne, hv⟩ := runLoop_lossless tables_ok _ toks none _ hok hrun
+    rw [flats_toVal hwf.ok, hflat hne] at hv
+    exact hv
+  · cases h
+  · cases h
+
+/-! ### what the implementation prints vs. the source spelling of numerals -/
+
+/-- re-spell a numeral the way the implementation prints it -/
+def Num.respell (n : Num) : Num := { n with raw := n.val.render }
+
+mutual
+/-- the tree with every `~` / `^` numeral re-spelled as the implementation prints it -/
+def respell : Tree → Tree
+  | .term k v l => .term k v l
+  | .field n e l => .field n (respell e) l
+  | .group k e l => .group k (respell e) l
+  | .range a b il ih l => .range (respell a) (respell b) il ih l
+  | .approx k t n l => .approx k (respell t) (Num.respell n) l
+  | .boost e n l => .boost (respell e) (Num.respell n) l
+  | .op k xs l => .op k (respells xs) l
+  | .unary k a l => .unary k (respell a) l
+  | .orange k a i l => .orange k (respell a) i l
+  | .none l => .none l
+def respells : List Tree → List Tree
+  | [] => []
+  | x :: r => respell x :: respells r
+end
+
+private theorem num_respell (n : Num) : (Num.respell n).text .raw = n.text .norm := by
+  obtain ⟨v, i, r⟩ := n
+  cases i <;> rfl
+
+mutual
+/-- what the implementation prints (`.norm`) is the source-faithful print (`.raw`) of the tree whose
+numerals are re-spelled -/
+theorem print_norm_eq_raw_respelled : ∀ t : Tree, t.full .norm = (respell t).full .raw
+  | .term .. => by simp [respell, Tree.full]
+  | .field n e l => by simp [respell, Tree.full, print_norm_eq_raw_respelled e]
+  | .group k e l => by simp [respell, Tree.full, print_norm_eq_raw_respelled e]
+  | .range a b il ih l => by
+      simp [respell, Tree.full, print_norm_eq_raw_respelled a, print_norm_eq_raw_respelled b]
+  | .approx k t n l => by simp [respell, Tree.full, print_norm_eq_raw_respelled t, num_respell]
+  | .boost e n l => by simp [respell, Tree.full, print_norm_eq_raw_respelled e, num_respell]
+  | .op k xs l => by simp [respell, Tree.full, prints_norm_eq_raw_respelled xs]
+  | .unary k a l => by simp [respell, Tree.full, print_norm_eq_raw_respelled a]
+  | .orange k a i l => by simp [respell, Tree.full, print_norm_eq_raw_respelled a]
+  | .none l => by simp [respell, Tree.full]
+theorem prints_norm_eq_raw_respelled : ∀ xs : List Tree,
+    Tree.fulls .norm xs = Tree.fulls .raw (respells xs)
+  | [] => by simp [respells, Tree.fulls]
+  | x :: r => by
+      simp [respells, Tree.fulls, print_norm_eq_raw_respelled x, prints_norm_eq_raw_respelled r]
+end
+
+/-! ### lexer errors, witnesses -/
+
+/-- the empty input is a syntax error at the end -/
 theorem parse_empty : parse [] = .error .syntaxEnd := by rfl
+
+/-- a successful parse met no illegal character (if `lex s = (toks, some e)` then `parse s` fails) -/
+theorem parse_ok_no_lexErr (s : Str) (t : Tree) (h : parse s = .ok t) : (lex s).2 = none := by
+  unfold parse parseWith at h
+  rcases hlex : lex s with ⟨toks, lerr⟩
+  rw [hlex] at h
+  simp only at h
+  split at h
+  · rename_i t' hrun
+    exact runLoop_no_lexErr tables_ok.acceptEnd _ _ toks lerr _ hrun
+  · cases h
+  · cases h
+
+/-- KF1 (negative witness): the blank between the field name and `:` is lost -/
+example : (parse "foo :bar".toList).map (·.full .raw) = .ok "foo:bar".toList := by rfl
+
+example : noBlankBeforeColon (lex "foo :bar".toList).1 = false := by rfl
+
+/-- non-vacuity: a query with AND, a group, a field, a range, a boost and several blanks parses,
+satisfies the hypothesis, and prints back -/
+example :
+    let s := "  a  AND (f:[1 TO  5}^2.50   OR \"x y\"~3 ) -z ".toList
+    (parse s).map (·.full .raw) = .ok s ∧ noBlankBeforeColon (lex s).1 = true :=
+  ⟨by rfl, by rfl⟩
+
 end Luqum.Props.C01
